@@ -21,7 +21,7 @@ ASSUMPTIONS = ["warm-up: the relation is asserted from tick W = k+2 on, because 
 
 
 def budget(tier):
-    return {"examples": 2400 if tier == "quick" else 20000, "wall_s": 110 if tier == "quick" else 1500}
+    return {"examples": 2400 if tier == "quick" else 20000, "wall_s": 110 if tier == "quick" else 900}
 
 
 @st.composite
